@@ -161,7 +161,10 @@ func (t *JitterTicker) Reset(d time.Duration, jitter time.Duration) {
 // erroneous "tick".
 func (t *JitterTicker) Stop() {
 	t.m.Lock()
-	t.timer.Stop()
+	// t.timer is nil if the ticker is already stopped.
+	if t.timer != nil {
+		t.timer.Stop()
+	}
 	t.gen++
 	t.timer = nil
 	t.m.Unlock()
